@@ -6,6 +6,9 @@ import PPLV.Solver.PIPCore
 `compatibility_check` enters `solve` as a parameter `cc : Mat → Option Bool` (`none`: out of fuel); its own
 model is `PIPCoreCompat.lean`, the driver plugs that model in, the theorems take its decision contract as
 hypothesis.
+
+Line numbers cited here and in the proof files refer to `PIP_Tree.cc` before commit deb2fdf (repair of KF-C07-12);
+that commit inserts 21 lines at 2823-2870, later lines are shifted accordingly.
 -/
 namespace PPLV.PIPCore
 
@@ -467,11 +470,41 @@ def assemble (aps : List ArtP) (cs : List Row) (tTest fTest : Row)
     let parent := fun (a : List ArtP) => CTree.dec a (addConstraint [] tTest) t (some f)
     if !cs.isEmpty then some (.dec aps cs (parent []) none) else some (parent aps)
 
-/-- `PIP_Solution_Node::solve` (PIP_Tree.cc:2642-3519) for a node that has no artificial parameter and
-    no constraint of its own at entry (a fresh root; the copy made with `No_Constraints`; `this` after its
-    lists were swapped aside), so that lines 2658-2662 just copy the context.
-    `entry = true`: the call starts here (feasibility of the context is re-checked when
-    `check_feasible_context`); `entry = false`: next iteration of the main loop. -/
+/-- outcome of "Search for the best pivot row" (PIP_Tree.cc:2821-2870) -/
+inductive PivR
+  | nothing                      -- unreachable: no negative row in the range
+  | found (pi pj : Nat)
+  | stuck (i : Nat)              -- row `i` is cached NEGATIVE and has no positive `s_ij`
+deriving Repr, DecidableEq, Inhabited
+
+/-- `choosePivot` that also says WHICH row has no positive coefficient -/
+def choosePivotR (ctl : Ctl) (nd : SolNode) (sg : List RowSign) : List Nat → Option (Nat × Nat) → PivR
+  | [], none => .nothing
+  | [], some (pi, pj) => .found pi pj
+  | i :: is, st =>
+    if signGet sg i ≠ .negative then choosePivotR ctl nd sg is st else
+    match findLexicoMinimalColumn nd.tab.s nd.mapping nd.basis (mrow nd.tab.s i) 0 with
+    | none => .stuck i
+    | some j =>
+      let better := match st with
+        | none => true
+        | some (pi, pj) => isBetterPivot nd.tab nd.mapping nd.basis i j pi pj
+      if better then
+        (if ctl.piv = 0 then .found i j else choosePivotR ctl nd sg is (some (i, j)))
+      else choosePivotR ctl nd sg is st
+
+/-- row `i` mentions the big parameter -/
+def viaBig (nd : SolNode) (i : Nat) : Bool :=
+  match nd.big with
+  | some b => rget (mrow nd.tab.t i) b != 0
+  | none => false
+
+/-- `PIP_Solution_Node::solve` (PIP_Tree.cc:2642-3540, with the repair of finding KF-C07-12, commit deb2fdf)
+    for a node that has no artificial parameter and no constraint of its own at entry (a fresh root; the copy
+    made with `No_Constraints`; `this` after its lists were swapped aside), so that lines 2658-2662 just copy
+    the context.  `entry = true`: the call starts here (feasibility of the context is re-checked when
+    `check_feasible_context`); `entry = false`: next iteration of the main loop.
+    The code before the repair is `solveGoAsWritten` (`PIPCoreSolveAsWritten.lean`). -/
 def solveGo (cc : Mat → Option Bool) (ctl : Ctl) (cfc : Bool) :
     Nat → Bool → SolNode → Mat → Res
   | 0, _, _, _ => .fuel
@@ -489,10 +522,18 @@ def solveGo (cc : Mat → Option Bool) (ctl : Ctl) (cfc : Bool) :
       let numRows := nd.tab.t.length
       match fs.neg with
       | some fneg =>
-        match choosePivot ctl nd sg (rangeFrom fneg numRows) none with
-        | none => .done none                           -- "No positive pivot: Solution = _|_"
-        | some none => .fuel                           -- unreachable: row `fneg` is negative
-        | some (some (pi, pj)) => solveGo cc ctl cfc fuel false (pivot nd pi pj) ctx
+        match choosePivotR ctl nd sg (rangeFrom fneg numRows) none with
+        | .nothing => .fuel
+        | .found pi pj => solveGo cc ctl cfc fuel false (pivot nd pi pj) ctx
+        | .stuck i =>
+          -- a sign obtained from the coefficient of the big parameter is not questioned
+          if viaBig nd i then .done none else
+          -- (repair of KF-C07-12) the cached NEGATIVE may only mean `t_i(z) <= 0`: is `t_i(z) >= 0` really
+          -- incompatible with the context?  If not, the sign is reset to MIXED and the loop starts over
+          match ccRow cc ctx (mrow nd.tab.t i) with
+          | none => .fuel
+          | some true => solveGo cc ctl cfc fuel false { nd with sign := sg.set i .mixed } ctx
+          | some false => .done none                    -- "No positive pivot: Solution = _|_"
       | none =>
         match fs.mix with
         | some fmix =>
@@ -503,7 +544,7 @@ def solveGo (cc : Mat → Option Bool) (ctl : Ctl) (cfc : Bool) :
             solveGo cc ctl cfc fuel false nd (ctx ++ [tautology])
           | none =>
             match findBestI nd.tab sg (rangeFrom fmix numRows) none with
-            | none => .fuel                            -- unreachable: row `fmix` is mixed
+            | none => .fuel
             | some (bestI, _) =>
               let tTest := integralSimplification (mrow nd.tab.t bestI)
               let child := { nd with arts := [], cons := [] }
